@@ -143,26 +143,42 @@ type probeNote struct {
 	Perms    string `json:"perms"`
 	Expected bool   `json:"expected"`
 	Job      string `json:"job"`
+	Tag      string `json:"tag"`
 }
 
 func classifyCrash(run *vk.Run, b batchArgs, res vk.ChildResult) {
-	// the last probes logged before the crash, most recent first
-	var probes []probeNote
-	for i := len(res.Notes) - 1; i >= 0 && len(probes) < 12; i-- {
-		if s, ok := strings.CutPrefix(res.Notes[i], "PROBE "); ok {
+	// Scenarios run concurrently in a child.  The culprit is a message that was logged
+	// (PROBE) and whose scenario never got to log what it observed: walk the notes
+	// backwards, remembering which scenarios have reported since.
+	reported := map[string]bool{}
+	var pending []probeNote
+	for i := len(res.Notes) - 1; i >= 0; i-- {
+		n := res.Notes[i]
+		if s, ok := strings.CutPrefix(n, "PROBE "); ok {
 			var p probeNote
-			if json.Unmarshal([]byte(s), &p) == nil {
-				probes = append(probes, p)
+			if json.Unmarshal([]byte(s), &p) == nil && !reported[p.Tag] {
+				pending = append(pending, p)
+				reported[p.Tag] = true // older messages of that scenario were answered
 			}
+			continue
+		}
+		if tag, rest, ok := strings.Cut(n, " "); ok && strings.HasPrefix(rest, "OBSERVED") {
+			reported[tag] = true
 		}
 	}
 	var culprit *probeNote
 	// a crash in the publishing path is caused by an 'offer' that had to be refused
-	for i := range probes {
-		if probes[i].Kind == "offer" && !probes[i].Expected {
-			culprit = &probes[i]
-			break
+	nc := 0
+	for i := range pending {
+		if pending[i].Kind == "offer" && !pending[i].Expected {
+			if culprit == nil {
+				culprit = &pending[i]
+			}
+			nc++
 		}
+	}
+	if nc > 1 {
+		culprit = nil // ambiguous: report the crash as such
 	}
 	replay := map[string]any{"mode": "batch", "args": b, "crash": res.CrashText, "last_commands": res.Notes}
 	if culprit != nil && strings.Contains(res.Crash, "nil pointer") {
